@@ -132,8 +132,33 @@ class Engine(ValueOps, ExprOps, CallOps, StmtOps):
         return ExprOps.getattr(self, base, attr, node)
 
     # ------------------------------------------------------------ spec expressions
+    CLAUSE_BUILTINS = {'len', 'isinstance', 'forall', 'exists', 'old', 'implies', 'same', 'is_fresh', 'seq', 'dom', 'vals', 'int_str',
+                       'min', 'max', 'str', 'int', 'bool', 'list', 'tuple', 'dict', 'True', 'False', 'None', 'textwrap', 'repr',
+                       'result', 'self', 'sorted', 'sum', 'enumerate', 'range', 'zip', 'reversed', 'map', 'abs', 'any', 'all',
+                       '_i', 'py_repr'}
+
+    def check_clause_names(self, node, text):
+        """every free name of a contract clause must denote something: a variable of the function, a specification function or
+        constant, a class.  A clause about a local that no longer exists (renamed by a refactoring) makes the function
+        out of reach (undecided) instead of silently comparing against an unknown global."""
+        bound = set()
+        for n in ast.walk(node):
+            if isinstance(n, ast.Lambda):
+                bound |= {a.arg for a in n.args.args}
+            elif isinstance(n, ast.comprehension):
+                bound |= {x.id for x in ast.walk(n.target) if isinstance(x, ast.Name)}
+        for n in ast.walk(node):
+            if isinstance(n, ast.Name) and isinstance(n.ctx, ast.Load):
+                nm = n.id
+                if nm in bound or nm in self.st.env or nm in self.spec_env or nm in self.spec_funcs or nm in self.CLAUSE_BUILTINS \
+                        or nm in self.st.ghost or self.repo.resolve_class(nm) is not None:
+                    continue
+                raise Unsupported('the contract clause `%s` mentions `%s`, which is not a variable of the function (renamed or removed?)'
+                                  % (text[:80], nm))
+
     def spec_eval(self, text, env=None):
         node = ast.parse(text.strip(), mode='eval').body
+        self.check_clause_names(node, text)
         saved_mode, saved_mute = self.spec_mode, self.st.mute
         self.spec_mode = True
         self.st.mute = True
@@ -147,6 +172,7 @@ class Engine(ValueOps, ExprOps, CallOps, StmtOps):
 
     def spec_eval_bool(self, text):
         node = ast.parse(text.strip(), mode='eval').body
+        self.check_clause_names(node, text)
         saved_mode, saved_mute = self.spec_mode, self.st.mute
         self.spec_mode = True
         self.st.mute = True
